@@ -62,9 +62,9 @@ def step_family():
     return rc == 0
 
 
-def step_lean(prop):
-    """-> dict(built_driver, theorems: {name: status}, log)"""
-    res = dict(driver=False, theorems={}, log="", scan=[])
+def step_lean(prop, recheck=False):
+    """-> dict(built_driver, theorems: {name: status}, log); `recheck` re-checks the compiled modules with leanchecker"""
+    res = dict(driver=False, theorems={}, log="", scan=[], leanchecker=None)
     rc, out = sh(["lake", "build", "driver"], cwd=LEAN)
     res["driver"] = rc == 0
     if rc != 0:
@@ -101,6 +101,14 @@ def step_lean(prop):
                 res["theorems"][t] = "ok" if not bad else "axioms:" + ",".join(sorted(bad))
         if rc != 0:
             res["log"] += out[-2000:]
+    if recheck and mods and built:
+        # independent re-check of the compiled .olean files of the property's modules
+        rc, out = sh(["lake", "env", "leanchecker"] + mods, cwd=LEAN, timeout=7200)
+        res["leanchecker"] = "ok" if rc == 0 else "failed: " + out[-600:]
+        if rc != 0:
+            for t in list(res["theorems"]):
+                res["theorems"][t] = "leanchecker-failed"
+            res["log"] += out[-1500:]
     # scan sources for escape hatches (comments stripped)
     for path in glob.glob(os.path.join(LEAN, "Evenio", "**", "*.lean"), recursive=True) + [os.path.join(LEAN, "Main.lean")]:
         txt = open(path).read()
@@ -135,3 +143,42 @@ def step_harness(profiles, features=()):
     return ok, log
 
 
+
+
+# ---- function fingerprints: which hand-modelled functions changed since the model was last validated against them ----
+
+def function_fingerprints():
+    """{file::fn: sha} over /repo/src (comments and whitespace stripped); functions are split at `fn name` boundaries"""
+    out = {}
+    for root, dirs, files in os.walk(os.path.join(REPO, "src")):
+        for fn in sorted(files):
+            if not fn.endswith(".rs"):
+                continue
+            path = os.path.join(root, fn)
+            rel = os.path.relpath(path, REPO)
+            text = open(path).read()
+            cut = text.find("#[cfg(test)]\nmod tests")
+            if cut >= 0:
+                text = text[:cut]
+            text = re.sub(r"//[^\n]*", "", text)
+            parts = re.split(r"\bfn\s+([A-Za-z_0-9]+)", text)
+            # parts = [prefix, name1, body1, name2, body2, ...]
+            seen = {}
+            for i in range(1, len(parts) - 1, 2):
+                name = parts[i]
+                body = re.sub(r"\s+", "", parts[i + 1])
+                n = seen.get(name, 0)
+                seen[name] = n + 1
+                key = f"{rel}::{name}" + (f"#{n}" if n else "")
+                out[key] = hashlib.sha256(body.encode()).hexdigest()[:12]
+    return out
+
+
+def changed_functions():
+    """functions whose text differs from the committed fingerprints (tools/fingerprints.json)"""
+    p = os.path.join(ROOT, "tools", "fingerprints.json")
+    if not os.path.exists(p):
+        return []
+    old = json.load(open(p))
+    new = function_fingerprints()
+    return sorted(k for k in set(old) | set(new) if old.get(k) != new.get(k))
